@@ -38,7 +38,8 @@ def declare(w):
     w.abstract_bytes = AbstractBytes()
     w.cls('g', fields={'n_digests': IntS, 'urandom_calls': IntS})
     w.cls('Chan', fields={'msgs': MapS(IntS, ValS), 'n_sent': IntS, 'n_rcvd': IntS})
-    w.cls('Conn', fields={'out': ref('Chan'), 'inc': ref('Chan'), 'challenge': ValS})
+    w.cls('Conn', fields={'out': ref('Chan'), 'inc': ref('Chan'), 'challenge': ValS},
+          methods={'close': lambda ex, a, k: SNone()})     # (closing sends and receives nothing)
     w.cls('HM', fields={'key': ValS, 'msg': ValS})
     w.cls('SockL', fields={'peer': ref('Conn')})
     w.cls('Listener', module='connection', fields={'_listener': opt(ref('SockL')), '_authkey': opt(ValS)})
